@@ -432,4 +432,5 @@ RULES = [
 	('13.i', 'address descriptors: unknown-type is reported only when nothing but the type byte was consumed', r13i),
 	('13.d', 'BigSize / CollectionLength: writer widths equal reader minimality thresholds; non-minimal forms rejected', r13d),
 	('13.w', 'no length / count is added to or multiplied in an 8/16-bit type and widened afterwards (wrap-around at the top of the range; rules/provenance.py)', lambda F: provenance.narrow_for_property(F, 'C13', '13.w')),
+	('13.v', 'field-versus-field comparisons (a received value against a limit, an id against an id) are the reviewed ones: same fields, same operator (rules/provenance.py)', lambda F: provenance.cmps_for_property(F, 'C13', '13.v')),
 ]
